@@ -187,6 +187,16 @@ class VirtualClock(object):
         _sound.datetime = _real_datetime
 
 
+_SHARED_CLOCK = None
+
+
+def shared_clock():
+    global _SHARED_CLOCK
+    if _SHARED_CLOCK is None:
+        _SHARED_CLOCK = VirtualClock().install()
+    return _SHARED_CLOCK
+
+
 # ---------------------------------------------------------------------------------------
 # recording queues (M-VID / M-AUD)
 
@@ -333,7 +343,9 @@ class Box(object):
             kw['devices'] = mounts
         kw.update(kwargs)
         self.kwargs = kw
-        self.clock = VirtualClock().install() if virtual_clock else None
+        # one process-wide virtual clock (the modules' `datetime` name is global state):
+        # several live Boxes share it, and closing one does not take it away from the others
+        self.clock = shared_clock() if virtual_clock else None
         self.s = Session(**kw)
         self.s.start()
         self.impl = self.s._impl
@@ -356,8 +368,6 @@ class Box(object):
             pass
         if self._own_root:
             shutil.rmtree(self.root, ignore_errors=True)
-        if self.clock is not None:
-            VirtualClock.uninstall()
 
     # -- running -----------------------------------------------------------------------
     def ex(self, cmd, budget=None):
